@@ -85,6 +85,11 @@ function buildImports(spec, log, share) {
       //  with the CALLER's instance, so a table shared between instances behaves differently by design)
       v = share.imports[mod][field];
       if (im.kind === 'memory' && created.memory === null) created.memory = v;
+    } else if (im.kind !== 'func' && Object.prototype.hasOwnProperty.call(imports[mod], field) && typeof imports[mod][field] !== 'function') {
+      // the SAME (module, field) global / memory / table imported once more: the one host object made for its first import entry
+      v = imports[mod][field];
+      if (im.kind === 'global') created.globals.push(v);
+      if (im.kind === 'table') created.tables.push(v);
     } else if (im.kind === 'func' && typeof imports[mod][field] === 'function') {
       // the SAME (module, field) imported once more: one host function, logged under the index of its first import entry
       v = imports[mod][field];
